@@ -17,8 +17,8 @@ RULE = (
     "translation: every logical address 0..0xFFFFFF under LoROM and HiROM (thorough: all 2^24 x 2, quick: every bank x "
     "window edges +-2 and 64 seeded offsets) compared with the model (ROM in-window -> offset, mirror -> primary's offset, "
     "RAM -> None, unmapped -> rejected); advance: in-window ROM / RAM addresses x increments that stay in the mapped range "
-    "((A+n) offset, same range, A+0==A, (A+m)+n==A+(m+n)); user maps: Hypothesis-drawn .map sets installed via Bus.map and "
-    "via the .map directive.  Non-trivial = address within 2 bytes of a window edge, or a mirror bank, or an increment that "
+    "((A+n) offset, same range, A+0==A, (A+m)+n==A+(m+n)); the same law through programs that start with `*=A` or with `@=A` (no *= before it) + filler + label; user maps: Hypothesis-drawn .map sets "
+    "(32K windows, 64K windows, and 64K banks of which only 8000-FFFF is addressed) installed via Bus.map and via the .map directive.  Non-trivial = address within 2 bytes of a window edge, or a mirror bank, or an increment that "
     "crosses at least one bank, or any user-map probe; distinct by construction for the enumerated part, by case hash otherwise."
 )
 LEVEL_TEXT = ("Complete enumeration of the finite domain (every one of the 2^24 logical addresses under both built-in mappings in the "
